@@ -81,9 +81,13 @@ def canon_dataset(ds):
 def canon_grid(g):
     ds = g._ds
     out = {}
+    # what the derived grid REPORTS (public properties: a Cartesian-only subset derives its
+    # longitudes on demand), not which variables happen to be materialised
     for name in ("node_lon", "node_lat", "face_node_connectivity"):
-        if name in ds:
-            out[name] = _arr(ds[name].values)
+        try:
+            out[name] = _arr(getattr(g, name).values)
+        except Exception as e:
+            out[name] = ("exc", type(e).__name__)
     for name in ("subgrid_face_indices", "subgrid_node_indices", "subgrid_edge_indices"):
         if name in ds:
             out[name] = _arr(ds[name].values)
